@@ -11,3 +11,4 @@ pub mod props;
 pub mod refs;
 pub mod drive;
 pub mod sess;
+pub mod targets;
